@@ -73,87 +73,127 @@ example : genText (.bin "c" .add (.var "a") (.var "b")) ≠ genText (.bin "c" .a
 /-! ## stage 2: laws of structured statements and their compiled counterparts -/
 
 /-- the source meaning as a relation: some amount of fuel suffices -/
-def Sem (L : Layout) (m : SrcSt) (st : SStmt) (m' : SrcSt) : Prop := ∃ f, sem L f m st = some m'
+def Sem (L : Layout) (m : SrcSt) (st : SStmt) (o : Out) : Prop := ∃ f, sem L f m st = some o
 
-theorem sem_flat (L : Layout) (f : Nat) (m : SrcSt) (s : RStmt) : sem L (f + 1) m (.flat s) = some (rspec L m s) := rfl
-theorem sem_seq (L : Layout) (f : Nat) (m : SrcSt) (a b : SStmt) :
-    sem L (f + 1) m (.seq a b) = (sem L f m a).bind fun m1 => sem L f m1 b := rfl
-theorem sem_ifThen (L : Layout) (f : Nat) (m : SrcSt) (c : Cond) (t : SStmt) :
-    sem L (f + 1) m (.ifThen c t) = if evalCond L m c then sem L f m t else some m := rfl
-theorem sem_while (L : Layout) (f : Nat) (m : SrcSt) (c : Cond) (b : SStmt) :
-    sem L (f + 1) m (.while c b) =
-      if evalCond L m c then (sem L f m b).bind fun m1 => sem L f m1 (.while c b) else some m := rfl
-theorem sem_doWhile (L : Layout) (f : Nat) (m : SrcSt) (c : Cond) (b : SStmt) :
-    sem L (f + 1) m (.doWhile b c) =
-      (sem L f m b).bind fun m1 => if evalCond L m1 c then sem L f m1 (.doWhile b c) else some m1 := rfl
-theorem sem_for (L : Layout) (f : Nat) (m : SrcSt) (i u : RStmt) (c : Cond) (b : SStmt) :
-    sem L (f + 1) m (.for i c u b) = sem L f (rspec L m i) (.while c (.seq b (.flat u))) := rfl
-
-theorem sem_mono (L : Layout) : ∀ (f : Nat) (m : SrcSt) (st : SStmt) (m' : SrcSt),
-    sem L f m st = some m' → sem L (f + 1) m st = some m' := by
+theorem sem_mono_both (L : Layout) : ∀ (f : Nat),
+    (∀ (m : SrcSt) (st : SStmt) (o : Out), sem L f m st = some o → sem L (f + 1) m st = some o) ∧
+    (∀ (c : Cond) (u : RStmt) (b : SStmt) (m : SrcSt) (o : Out), semFor L c u b f m = some o → semFor L c u b (f + 1) m = some o) := by
   intro f
   induction f with
-  | zero => intro m st m' h; simp [sem] at h
+  | zero => exact ⟨fun m st o h => by simp [sem] at h, fun c u b m o h => by simp [semFor] at h⟩
   | succ f ih =>
-    intro m st m' h
-    cases st with
-    | flat s => simpa [sem] using h
-    | skip => simpa [sem] using h
-    | seq a b =>
-      simp only [sem] at h ⊢
-      cases h1 : sem L f m a with
-      | none => simp [h1] at h
-      | some m1 =>
-        simp [h1] at h
-        simp [ih m a m1 h1, ih m1 b m' h]
-    | ifThen c t =>
-      simp only [sem] at h ⊢
-      split at h
-      · rename_i hc; simp [hc, ih m t m' h]
-      · rename_i hc; simp [hc]; simpa using h
-    | ifElse c t e =>
-      simp only [sem] at h ⊢
-      split at h
-      · rename_i hc; simp [hc, ih m t m' h]
-      · rename_i hc; simp [hc, ih m e m' h]
-    | «while» c b =>
-      rw [sem_while] at h ⊢
-      split at h
-      · rename_i hc
+    obtain ⟨ih1, ih2⟩ := ih
+    refine ⟨?_, ?_⟩
+    · intro m st o h
+      cases st with
+      | flat s => simpa [sem] using h
+      | skip => simpa [sem] using h
+      | brk => simpa [sem] using h
+      | cont => simpa [sem] using h
+      | ifBrk c => simpa [sem] using h
+      | ifCont c => simpa [sem] using h
+      | seq a b =>
+        simp only [sem] at h
+        cases h1 : sem L f m a with
+        | none => simp [h1] at h
+        | some oa =>
+          obtain ⟨ea, m1⟩ := oa
+          have e1 := ih1 m a _ h1
+          cases ea with
+          | norm =>
+            simp only [h1] at h
+            rw [sem, e1]; exact ih1 m1 b o h
+          | brk => simp only [h1] at h; rw [sem, e1]; exact h
+          | cont => simp only [h1] at h; rw [sem, e1]; exact h
+      | ifThen c t =>
+        simp only [sem] at h
+        rw [sem]
+        split at h
+        · rename_i hc; rw [if_pos hc]; exact ih1 m t o h
+        · rename_i hc; rw [if_neg hc]; exact h
+      | ifElse c t e =>
+        simp only [sem] at h
+        rw [sem]
+        split at h
+        · rename_i hc; rw [if_pos hc]; exact ih1 m t o h
+        · rename_i hc; rw [if_neg hc]; exact ih1 m e o h
+      | «while» c b =>
+        simp only [sem] at h
+        rw [sem]
+        split at h
+        · rename_i hc
+          rw [if_pos hc]
+          cases h1 : sem L f m b with
+          | none => simp [h1] at h
+          | some ob =>
+            obtain ⟨eb, m1⟩ := ob
+            rw [ih1 m b _ h1]
+            cases eb with
+            | brk => simpa [h1] using h
+            | norm => simp only [h1] at h; exact ih1 m1 _ o h
+            | cont => simp only [h1] at h; exact ih1 m1 _ o h
+        · rename_i hc; rw [if_neg hc]; exact h
+      | doWhile b c =>
+        simp only [sem] at h
+        rw [sem]
         cases h1 : sem L f m b with
         | none => simp [h1] at h
-        | some m1 =>
-          simp [h1] at h
-          rw [if_pos hc, ih m b m1 h1]
-          exact ih m1 _ m' h
+        | some ob =>
+          obtain ⟨eb, m1⟩ := ob
+          rw [ih1 m b _ h1]
+          cases eb with
+          | brk => simpa [h1] using h
+          | norm =>
+            simp only [h1] at h ⊢
+            split at h
+            · rename_i hc; rw [if_pos hc]; exact ih1 m1 _ o h
+            · rename_i hc; rw [if_neg hc]; exact h
+          | cont =>
+            simp only [h1] at h ⊢
+            split at h
+            · rename_i hc; rw [if_pos hc]; exact ih1 m1 _ o h
+            · rename_i hc; rw [if_neg hc]; exact h
+      | «for» i c u b =>
+        simp only [sem] at h
+        rw [sem]; exact ih2 c u b _ o h
+    · intro c u b m o h
+      simp only [semFor] at h
+      rw [semFor]
+      split at h
+      · rename_i hc
+        rw [if_pos hc]
+        cases h1 : sem L f m b with
+        | none => simp [h1] at h
+        | some ob =>
+          obtain ⟨eb, m1⟩ := ob
+          rw [ih1 m b _ h1]
+          cases eb with
+          | brk => simpa [h1] using h
+          | norm => simp only [h1] at h; exact ih2 c u b _ o h
+          | cont => simp only [h1] at h; exact ih2 c u b _ o h
       · rename_i hc; rw [if_neg hc]; exact h
-    | doWhile b c =>
-      rw [sem_doWhile] at h ⊢
-      cases h1 : sem L f m b with
-      | none => simp [h1] at h
-      | some m1 =>
-        simp [h1] at h
-        rw [ih m b m1 h1]
-        simp only [Option.bind_some]
-        split at h
-        · rename_i hc; rw [if_pos hc]; exact ih m1 _ m' h
-        · rename_i hc; rw [if_neg hc]; exact h
-    | «for» i c u b =>
-      simp only [sem] at h ⊢
-      exact ih _ _ _ h
 
-theorem sem_mono_add (L : Layout) (f k : Nat) (m : SrcSt) (st : SStmt) (m' : SrcSt)
-    (h : sem L f m st = some m') : sem L (f + k) m st = some m' := by
+theorem sem_mono (L : Layout) (f : Nat) (m : SrcSt) (st : SStmt) (o : Out) (h : sem L f m st = some o) :
+    sem L (f + 1) m st = some o := (sem_mono_both L f).1 m st o h
+
+theorem sem_mono_add (L : Layout) (f k : Nat) (m : SrcSt) (st : SStmt) (o : Out)
+    (h : sem L f m st = some o) : sem L (f + k) m st = some o := by
   induction k with
   | zero => exact h
   | succ k ih => exact sem_mono L _ _ _ _ ih
 
+theorem semFor_mono_add (L : Layout) (c : Cond) (u : RStmt) (b : SStmt) (f k : Nat) (m : SrcSt) (o : Out)
+    (h : semFor L c u b f m = some o) : semFor L c u b (f + k) m = some o := by
+  induction k with
+  | zero => exact h
+  | succ k ih => exact (sem_mono_both L _).2 c u b m o ih
+
 /-- the source meaning is a partial function -/
-theorem Sem.det {L : Layout} {m : SrcSt} {st : SStmt} {m1 m2 : SrcSt} (h1 : Sem L m st m1) (h2 : Sem L m st m2) : m1 = m2 := by
+theorem Sem.det {L : Layout} {m : SrcSt} {st : SStmt} {o1 o2 : Out} (h1 : Sem L m st o1) (h2 : Sem L m st o2) : o1 = o2 := by
   obtain ⟨f1, e1⟩ := h1
   obtain ⟨f2, e2⟩ := h2
-  have a := sem_mono_add L f1 f2 m st m1 e1
-  have b := sem_mono_add L f2 f1 m st m2 e2
+  have a := sem_mono_add L f1 f2 m st o1 e1
+  have b := sem_mono_add L f2 f1 m st o2 e2
   rw [Nat.add_comm] at b
   rw [a] at b
   exact Option.some.inj b
@@ -162,15 +202,16 @@ theorem Sem.det {L : Layout} {m : SrcSt} {st : SStmt} {m1 m2 : SrcSt} (h1 : Sem 
     machine state: both runs end, in the same memory, with X, Y, SP as they were -/
 theorem same_meaning_same_behaviour (L : Layout) (st₁ st₂ : SStmt)
     (h₁ : SInFragment st₁ = true) (h₂ : SInFragment st₂ = true)
-    (s : Cpu) (m' : SrcSt) (hs₁ : Sem L (srcOf s) st₁ m') (hs₂ : Sem L (srcOf s) st₂ m') :
+    (c₁ : Scoped false st₁ = true) (c₂ : Scoped false st₂ = true)
+    (s : Cpu) (o : Out) (hs₁ : Sem L (srcOf s) st₁ o) (hs₂ : Sem L (srcOf s) st₂ o) :
     ∃ s₁ s₂ n₁ n₂,
-      runG L (gen {} st₁).1 (gen {} st₁).1.length n₁ 0 s = some s₁ ∧
-      runG L (gen {} st₂).1 (gen {} st₂).1.length n₂ 0 s = some s₂ ∧
+      runG L (gen none {} st₁).1 (gen none {} st₁).1.length n₁ 0 s = some s₁ ∧
+      runG L (gen none {} st₂).1 (gen none {} st₂).1.length n₂ 0 s = some s₂ ∧
       srcOf s₁ = srcOf s₂ ∧ s₁.sp = s₂.sp := by
   obtain ⟨f1, e1⟩ := hs₁
   obtain ⟨f2, e2⟩ := hs₂
-  obtain ⟨s1, n1, r1, m1, p1⟩ := struct_program_correct L st₁ f1 (srcOf s) m' e1 h₁ s rfl
-  obtain ⟨s2, n2, r2, m2, p2⟩ := struct_program_correct L st₂ f2 (srcOf s) m' e2 h₂ s rfl
+  obtain ⟨s1, n1, r1, m1, p1⟩ := struct_program_correct L st₁ f1 (srcOf s) o e1 h₁ c₁ s rfl
+  obtain ⟨s2, n2, r2, m2, p2⟩ := struct_program_correct L st₂ f2 (srcOf s) o e2 h₂ c₂ s rfl
   exact ⟨s1, s2, n1, n2, r1, r2, by rw [m1, m2], by rw [p1, p2]⟩
 
 /-! ### the laws -/
@@ -239,13 +280,14 @@ theorem cond_congr (L : Layout) (c c' : Cond) (hc : ∀ m, evalCond L m c = eval
       (∀ t e, sem L f m (.ifElse c t e) = sem L f m (.ifElse c' t e)) ∧
       (∀ b, sem L f m (.while c b) = sem L f m (.while c' b)) ∧
       (∀ b, sem L f m (.doWhile b c) = sem L f m (.doWhile b c')) ∧
+      (∀ u b, semFor L c u b f m = semFor L c' u b f m) ∧
       (∀ i u b, sem L f m (.for i c u b) = sem L f m (.for i c' u b)) := by
   intro f
   induction f with
-  | zero => intro m; simp [sem]
+  | zero => intro m; simp [sem, semFor]
   | succ f ih =>
     intro m
-    refine ⟨?_, ?_, ?_, ?_, ?_⟩
+    refine ⟨?_, ?_, ?_, ?_, ?_, ?_⟩
     · intro t; simp only [sem, hc]
     · intro t e; simp only [sem, hc]
     · intro b
@@ -253,16 +295,29 @@ theorem cond_congr (L : Layout) (c c' : Cond) (hc : ∀ m, evalCond L m c = eval
       split
       · cases sem L f m b with
         | none => rfl
-        | some m1 => simp [(ih m1).2.2.1 b]
+        | some ob =>
+          obtain ⟨eb, m1⟩ := ob
+          cases eb <;> simp [(ih m1).2.2.1 b]
       · rfl
     · intro b
       simp only [sem]
       cases sem L f m b with
       | none => rfl
-      | some m1 => simp [hc, (ih m1).2.2.2.1 b]
+      | some ob =>
+        obtain ⟨eb, m1⟩ := ob
+        cases eb <;> simp [hc, (ih m1).2.2.2.1 b]
+    · intro u b
+      simp only [semFor, hc]
+      split
+      · cases sem L f m b with
+        | none => rfl
+        | some ob =>
+          obtain ⟨eb, m1⟩ := ob
+          cases eb <;> simp [(ih _).2.2.2.2.1 u b]
+      · rfl
     · intro i u b
       simp only [sem]
-      exact (ih _).2.2.1 _
+      exact (ih _).2.2.2.2.1 u b
 
 /-- `a < b` ≡ `b > a` (and the other five operators) wherever a condition stands -/
 theorem compare_swap_law (L : Layout) (c : Cond) (f : Nat) (m : SrcSt) :
@@ -270,177 +325,309 @@ theorem compare_swap_law (L : Layout) (c : Cond) (f : Nat) (m : SrcSt) :
     (∀ t e, sem L f m (.ifElse c t e) = sem L f m (.ifElse (Cond.swap c) t e)) ∧
     (∀ b, sem L f m (.while c b) = sem L f m (.while (Cond.swap c) b)) ∧
     (∀ b, sem L f m (.doWhile b c) = sem L f m (.doWhile b (Cond.swap c))) ∧
-    (∀ i u b, sem L f m (.for i c u b) = sem L f m (.for i (Cond.swap c) u b)) :=
-  cond_congr L c (Cond.swap c) (fun m => (evalCond_swap L m c).symm) f m
+    (∀ i u b, sem L f m (.for i c u b) = sem L f m (.for i (Cond.swap c) u b)) := by
+  have := cond_congr L c (Cond.swap c) (fun m => (evalCond_swap L m c).symm) f m
+  exact ⟨this.1, this.2.1, this.2.2.1, this.2.2.2.1, this.2.2.2.2.2⟩
 
-/-- `for (i; c; u) S` ≡ `i; while (c) { S; u; }` -/
-theorem for_while_law (L : Layout) (m m' : SrcSt) (i u : RStmt) (c : Cond) (b : SStmt) :
-    Sem L m (.for i c u b) m' ↔ Sem L m (.seq (.flat i) (.while c (.seq b (.flat u)))) m' := by
-  constructor
-  · rintro ⟨f, h⟩
-    cases f with
-    | zero => simp [sem] at h
-    | succ f =>
-      rw [sem_for] at h
-      refine ⟨f + 2, ?_⟩
-      have := sem_mono L f _ _ _ h
-      rw [sem_seq, sem_flat]
-      exact this
-  · rintro ⟨f, h⟩
-    cases f with
-    | zero => simp [sem] at h
-    | succ f =>
-      rw [sem_seq] at h
-      cases f with
-      | zero => simp [sem] at h
-      | succ f =>
-        rw [sem_flat] at h
-        exact ⟨f + 2, by rw [sem_for]; exact h⟩
-
-/-- `while (c) S` ≡ `if (c) do S while (c);` -/
-theorem while_dowhile_law (L : Layout) (c : Cond) (b : SStmt) : ∀ (m m' : SrcSt),
-    Sem L m (.while c b) m' ↔ Sem L m (.ifThen c (.doWhile b c)) m' := by
-  have fwd : ∀ f m m', sem L f m (.while c b) = some m' → Sem L m (.ifThen c (.doWhile b c)) m' := by
+/-- `for (i; c; u) S` ≡ `i; while (c) { S; u; }` — for a body without a `continue` of its own (a `continue`
+    in a `for` still runs the update; in the `while` spelling it would skip it); `break` is fine -/
+theorem for_while_law (L : Layout) (i u : RStmt) (c : Cond) (b : SStmt) (hcn : contHere b = false) (m : SrcSt) (o : Out) :
+    Sem L m (.for i c u b) o ↔ Sem L m (.seq (.flat i) (.while c (.seq b (.flat u)))) o := by
+  -- the two loops, from the same memory
+  have fwd : ∀ f m o, semFor L c u b f m = some o → Sem L m (.while c (.seq b (.flat u))) o := by
     intro f
     induction f with
-    | zero => intro m m' h; simp [sem] at h
+    | zero => intro m o h; simp [semFor] at h
     | succ f ih =>
-      intro m m' h
-      rw [sem_while] at h
+      intro m o h
+      simp only [semFor] at h
       by_cases hc : evalCond L m c = true
       · rw [if_pos hc] at h
         cases h1 : sem L f m b with
         | none => simp [h1] at h
-        | some m1 =>
-          simp [h1] at h
-          obtain ⟨f2, h2⟩ := ih m1 m' h
-          cases f2 with
-          | zero => simp [sem] at h2
-          | succ f2 =>
-            rw [sem_ifThen] at h2
-            refine ⟨f + f2 + 2, ?_⟩
-            rw [sem_ifThen, if_pos hc, sem_doWhile, sem_mono_add L f f2 m b m1 h1]
-            simp only [Option.bind_some]
-            by_cases hc1 : evalCond L m1 c = true
-            · rw [if_pos hc1] at h2 ⊢
-              have := sem_mono_add L f2 f m1 _ m' h2
-              rw [Nat.add_comm] at this
-              exact this
-            · rw [if_neg hc1] at h2 ⊢
-              exact h2
-      · rw [if_neg hc] at h
-        exact ⟨1, by rw [sem_ifThen, if_neg hc]; exact h⟩
-  have bwd : ∀ f m m', sem L f m (.doWhile b c) = some m' → evalCond L m c = true → Sem L m (.while c b) m' := by
+        | some ob =>
+          obtain ⟨eb, m1⟩ := ob
+          cases eb with
+          | brk =>
+            simp only [h1, Option.some.injEq] at h
+            subst h
+            exact ⟨f + 2, by simp [sem, hc, h1]⟩
+          | cont =>
+            have := C01.sem_cont_has_continue L f m b m1 h1
+            rw [hcn] at this; cases this
+          | norm =>
+            simp only [h1] at h
+            obtain ⟨f2, h2⟩ := ih _ o h
+            refine ⟨f + f2 + 3, ?_⟩
+            have hb := sem_mono_add L f (f2 + 1) m b _ h1
+            have hw := sem_mono_add L f2 (f + 2) _ _ o h2
+            have e1 : f + f2 + 3 = (f + f2 + 2) + 1 := by omega
+            rw [e1, sem, if_pos hc]
+            have e2 : f + f2 + 2 = (f + f2 + 1) + 1 := by omega
+            rw [e2, sem]
+            have e3 : f + (f2 + 1) = f + f2 + 1 := by omega
+            rw [e3] at hb
+            rw [hb]
+            simp only
+            cases hf : f + f2 + 1 with
+            | zero => omega
+            | succ k =>
+              simp only [sem]
+              have e4 : f2 + (f + 2) = k + 1 + 1 := by omega
+              rw [e4] at hw
+              exact hw
+      · rw [if_neg hc, Option.some.injEq] at h
+        subst h
+        exact ⟨1, by simp [sem, hc]⟩
+  have bwd : ∀ f m o, sem L f m (.while c (.seq b (.flat u))) = some o → ∃ k, semFor L c u b k m = some o := by
     intro f
     induction f with
-    | zero => intro m m' h; simp [sem] at h
+    | zero => intro m o h; simp [sem] at h
     | succ f ih =>
-      intro m m' h hc
-      rw [sem_doWhile] at h
-      cases h1 : sem L f m b with
-      | none => simp [h1] at h
-      | some m1 =>
-        simp only [h1, Option.bind_some] at h
-        by_cases hc1 : evalCond L m1 c = true
-        · rw [if_pos hc1] at h
-          obtain ⟨f2, h2⟩ := ih m1 m' h hc1
-          refine ⟨f + f2 + 1, ?_⟩
-          rw [sem_while, if_pos hc, sem_mono_add L f f2 m b m1 h1]
-          simp only [Option.bind_some]
-          have := sem_mono_add L f2 f m1 _ m' h2
-          rw [Nat.add_comm] at this
-          exact this
-        · rw [if_neg hc1] at h
-          refine ⟨f + 2, ?_⟩
-          rw [sem_while, if_pos hc, sem_mono L f m b m1 h1]
-          simp only [Option.bind_some]
-          rw [sem_while, if_neg hc1]
-          exact h
-  intro m m'
+      intro m o h
+      simp only [sem] at h
+      by_cases hc : evalCond L m c = true
+      · rw [if_pos hc] at h
+        cases f with
+        | zero => simp [sem] at h
+        | succ f =>
+          simp only [sem] at h
+          cases h1 : sem L f m b with
+          | none => simp [h1] at h
+          | some ob =>
+            obtain ⟨eb, m1⟩ := ob
+            cases eb with
+            | brk =>
+              simp only [h1, Option.some.injEq] at h
+              subst h
+              exact ⟨f + 1, by simp [semFor, hc, h1]⟩
+            | cont =>
+              have := C01.sem_cont_has_continue L f m b m1 h1
+              rw [hcn] at this; cases this
+            | norm =>
+              simp only [h1] at h
+              cases f with
+              | zero => simp [sem] at h1
+              | succ f =>
+                simp only [sem] at h
+                obtain ⟨k, hk⟩ := ih _ o h
+                refine ⟨(f + 1) + k + 1, ?_⟩
+                rw [semFor, if_pos hc]
+                rw [sem_mono_add L (f + 1) k m b _ h1]
+                simp only
+                have := semFor_mono_add L c u b k (f + 1) _ o hk
+                rw [Nat.add_comm] at this
+                exact this
+      · rw [if_neg hc, Option.some.injEq] at h
+        subst h
+        exact ⟨1, by simp [semFor, hc]⟩
   constructor
-  · rintro ⟨f, h⟩; exact fwd f m m' h
   · rintro ⟨f, h⟩
     cases f with
     | zero => simp [sem] at h
     | succ f =>
-      rw [sem_ifThen] at h
+      simp only [sem] at h
+      obtain ⟨f2, h2⟩ := fwd f _ o h
+      cases f2 with
+      | zero => simp [sem] at h2
+      | succ f2 => exact ⟨f2 + 2, by simp only [sem]; exact h2⟩
+  · rintro ⟨f, h⟩
+    cases f with
+    | zero => simp [sem] at h
+    | succ f =>
+      simp only [sem] at h
+      cases f with
+      | zero => simp [sem] at h
+      | succ f =>
+        simp only [sem] at h
+        obtain ⟨k, hk⟩ := bwd (f + 1) _ o h
+        exact ⟨k + 1, by simp [sem, hk]⟩
+
+/-- `while (c) S` ≡ `if (c) do S while (c);` — also when S leaves by `break` or `continue` -/
+theorem while_dowhile_law (L : Layout) (c : Cond) (b : SStmt) : ∀ (m : SrcSt) (o : Out),
+    Sem L m (.while c b) o ↔ Sem L m (.ifThen c (.doWhile b c)) o := by
+  have fwd : ∀ f m o, sem L f m (.while c b) = some o → Sem L m (.ifThen c (.doWhile b c)) o := by
+    intro f
+    induction f with
+    | zero => intro m o h; simp [sem] at h
+    | succ f ih =>
+      intro m o h
+      simp only [sem] at h
       by_cases hc : evalCond L m c = true
       · rw [if_pos hc] at h
-        exact bwd f m m' h hc
+        cases h1 : sem L f m b with
+        | none => simp [h1] at h
+        | some ob =>
+          obtain ⟨eb, m1⟩ := ob
+          have key : ∀ (f2 : Nat), sem L f2 m1 (.ifThen c (.doWhile b c)) = some o → eb ≠ .brk →
+              Sem L m (.ifThen c (.doWhile b c)) o := by
+            intro f2 h2 hne
+            cases f2 with
+            | zero => simp [sem] at h2
+            | succ f2 =>
+              simp only [sem] at h2
+              refine ⟨f + f2 + 2, ?_⟩
+              have e1 : f + f2 + 2 = (f + f2 + 1) + 1 := by omega
+              rw [e1, sem, if_pos hc]
+              have e2 : f + f2 + 1 = (f + f2) + 1 := by omega
+              rw [e2, sem, sem_mono_add L f f2 m b _ h1]
+              by_cases hc1 : evalCond L m1 c = true
+              · rw [if_pos hc1] at h2
+                have := sem_mono_add L f2 f m1 _ o h2
+                rw [Nat.add_comm] at this
+                cases eb with
+                | brk => exact absurd rfl hne
+                | norm => simp only [if_pos hc1]; exact this
+                | cont => simp only [if_pos hc1]; exact this
+              · rw [if_neg hc1] at h2
+                cases eb with
+                | brk => exact absurd rfl hne
+                | norm => simp only [if_neg hc1]; exact h2
+                | cont => simp only [if_neg hc1]; exact h2
+          cases eb with
+          | brk =>
+            simp only [h1, Option.some.injEq] at h
+            subst h
+            exact ⟨f + 2, by simp [sem, hc, h1]⟩
+          | norm =>
+            simp only [h1] at h
+            obtain ⟨f2, h2⟩ := ih m1 o h
+            exact key f2 h2 (by simp)
+          | cont =>
+            simp only [h1] at h
+            obtain ⟨f2, h2⟩ := ih m1 o h
+            exact key f2 h2 (by simp)
       · rw [if_neg hc] at h
-        exact ⟨1, by rw [sem_while, if_neg hc]; exact h⟩
-
+        exact ⟨1, by simp only [sem, if_neg hc]; exact h⟩
+  have bwd : ∀ f m o, sem L f m (.doWhile b c) = some o → evalCond L m c = true → Sem L m (.while c b) o := by
+    intro f
+    induction f with
+    | zero => intro m o h; simp [sem] at h
+    | succ f ih =>
+      intro m o h hc
+      simp only [sem] at h
+      cases h1 : sem L f m b with
+      | none => simp [h1] at h
+      | some ob =>
+        obtain ⟨eb, m1⟩ := ob
+        have key : eb ≠ .brk → (if evalCond L m1 c = true then sem L f m1 (.doWhile b c) else some (.norm, m1)) = some o →
+            Sem L m (.while c b) o := by
+          intro hne h
+          by_cases hc1 : evalCond L m1 c = true
+          · rw [if_pos hc1] at h
+            obtain ⟨f2, h2⟩ := ih m1 o h hc1
+            refine ⟨f + f2 + 1, ?_⟩
+            rw [sem, if_pos hc, sem_mono_add L f f2 m b _ h1]
+            have := sem_mono_add L f2 f m1 _ o h2
+            rw [Nat.add_comm] at this
+            cases eb with
+            | brk => exact absurd rfl hne
+            | norm => exact this
+            | cont => exact this
+          · rw [if_neg hc1] at h
+            refine ⟨f + 2, ?_⟩
+            rw [sem, if_pos hc, sem_mono L f m b _ h1]
+            cases eb with
+            | brk => exact absurd rfl hne
+            | norm => simp only [sem, if_neg hc1]; exact h
+            | cont => simp only [sem, if_neg hc1]; exact h
+        cases eb with
+        | brk =>
+          simp only [h1, Option.some.injEq] at h
+          subst h
+          exact ⟨f + 1, by simp [sem, hc, h1]⟩
+        | norm => simp only [h1] at h; exact key (by simp) h
+        | cont => simp only [h1] at h; exact key (by simp) h
+  intro m o
+  constructor
+  · rintro ⟨f, h⟩; exact fwd f m o h
+  · rintro ⟨f, h⟩
+    cases f with
+    | zero => simp [sem] at h
+    | succ f =>
+      simp only [sem] at h
+      by_cases hc : evalCond L m c = true
+      · rw [if_pos hc] at h
+        exact bwd f m o h hc
+      · rw [if_neg hc] at h
+        exact ⟨1, by simp only [sem, if_neg hc]; exact h⟩
 
 /-! ### compiled counterparts -/
 
 /-- two spellings related by a law (same meaning from this memory) behave identically when compiled -/
 theorem compiled_equiv_struct (L : Layout) (st₁ st₂ : SStmt)
-    (h₁ : SInFragment st₁ = true) (h₂ : SInFragment st₂ = true) (s : Cpu)
-    (hlaw : ∀ m', Sem L (srcOf s) st₁ m' ↔ Sem L (srcOf s) st₂ m') (m' : SrcSt) (hterm : Sem L (srcOf s) st₁ m') :
+    (h₁ : SInFragment st₁ = true) (h₂ : SInFragment st₂ = true)
+    (c₁ : Scoped false st₁ = true) (c₂ : Scoped false st₂ = true) (s : Cpu)
+    (hlaw : ∀ o, Sem L (srcOf s) st₁ o ↔ Sem L (srcOf s) st₂ o) (o : Out) (hterm : Sem L (srcOf s) st₁ o) :
     ∃ s₁ s₂ n₁ n₂,
-      runG L (gen {} st₁).1 (gen {} st₁).1.length n₁ 0 s = some s₁ ∧
-      runG L (gen {} st₂).1 (gen {} st₂).1.length n₂ 0 s = some s₂ ∧
+      runG L (gen none {} st₁).1 (gen none {} st₁).1.length n₁ 0 s = some s₁ ∧
+      runG L (gen none {} st₂).1 (gen none {} st₂).1.length n₂ 0 s = some s₂ ∧
       srcOf s₁ = srcOf s₂ ∧ s₁.sp = s₂.sp :=
-  same_meaning_same_behaviour L st₁ st₂ h₁ h₂ s m' hterm ((hlaw m').mp hterm)
+  same_meaning_same_behaviour L st₁ st₂ h₁ h₂ c₁ c₂ s o hterm ((hlaw o).mp hterm)
 
 theorem compiled_if_else_swap (L : Layout) (c : Cond) (t e : SStmt)
     (h₁ : SInFragment (.ifElse c t e) = true) (h₂ : SInFragment (.ifElse (Cond.neg c) e t) = true)
-    (s : Cpu) (m' : SrcSt) (hterm : Sem L (srcOf s) (.ifElse c t e) m') :
+    (c₁ : Scoped false (.ifElse c t e) = true) (c₂ : Scoped false (.ifElse (Cond.neg c) e t) = true)
+    (s : Cpu) (o : Out) (hterm : Sem L (srcOf s) (.ifElse c t e) o) :
     ∃ s₁ s₂ n₁ n₂,
-      runG L (gen {} (.ifElse c t e)).1 (gen {} (.ifElse c t e)).1.length n₁ 0 s = some s₁ ∧
-      runG L (gen {} (.ifElse (Cond.neg c) e t)).1 (gen {} (.ifElse (Cond.neg c) e t)).1.length n₂ 0 s = some s₂ ∧
+      runG L (gen none {} (.ifElse c t e)).1 (gen none {} (.ifElse c t e)).1.length n₁ 0 s = some s₁ ∧
+      runG L (gen none {} (.ifElse (Cond.neg c) e t)).1 (gen none {} (.ifElse (Cond.neg c) e t)).1.length n₂ 0 s = some s₂ ∧
       srcOf s₁ = srcOf s₂ ∧ s₁.sp = s₂.sp :=
-  compiled_equiv_struct L _ _ h₁ h₂ s
-    (fun m' => ⟨fun ⟨f, h⟩ => ⟨f, by rw [← if_else_swap_law]; exact h⟩, fun ⟨f, h⟩ => ⟨f, by rw [if_else_swap_law]; exact h⟩⟩) m' hterm
+  compiled_equiv_struct L _ _ h₁ h₂ c₁ c₂ s
+    (fun o => ⟨fun ⟨f, h⟩ => ⟨f, by rw [← if_else_swap_law]; exact h⟩, fun ⟨f, h⟩ => ⟨f, by rw [if_else_swap_law]; exact h⟩⟩) o hterm
 
-theorem compiled_for_while (L : Layout) (i u : RStmt) (c : Cond) (b : SStmt)
+theorem compiled_for_while (L : Layout) (i u : RStmt) (c : Cond) (b : SStmt) (hcn : contHere b = false)
     (h₁ : SInFragment (.for i c u b) = true) (h₂ : SInFragment (.seq (.flat i) (.while c (.seq b (.flat u)))) = true)
-    (s : Cpu) (m' : SrcSt) (hterm : Sem L (srcOf s) (.for i c u b) m') :
+    (c₁ : Scoped false (.for i c u b) = true) (c₂ : Scoped false (.seq (.flat i) (.while c (.seq b (.flat u)))) = true)
+    (s : Cpu) (o : Out) (hterm : Sem L (srcOf s) (.for i c u b) o) :
     ∃ s₁ s₂ n₁ n₂,
-      runG L (gen {} (.for i c u b)).1 (gen {} (.for i c u b)).1.length n₁ 0 s = some s₁ ∧
-      runG L (gen {} (.seq (.flat i) (.while c (.seq b (.flat u))))).1
-        (gen {} (.seq (.flat i) (.while c (.seq b (.flat u))))).1.length n₂ 0 s = some s₂ ∧
+      runG L (gen none {} (.for i c u b)).1 (gen none {} (.for i c u b)).1.length n₁ 0 s = some s₁ ∧
+      runG L (gen none {} (.seq (.flat i) (.while c (.seq b (.flat u))))).1
+        (gen none {} (.seq (.flat i) (.while c (.seq b (.flat u))))).1.length n₂ 0 s = some s₂ ∧
       srcOf s₁ = srcOf s₂ ∧ s₁.sp = s₂.sp :=
-  compiled_equiv_struct L _ _ h₁ h₂ s (fun m' => for_while_law L (srcOf s) m' i u c b) m' hterm
+  compiled_equiv_struct L _ _ h₁ h₂ c₁ c₂ s (fun o => for_while_law L i u c b hcn (srcOf s) o) o hterm
 
 theorem compiled_while_dowhile (L : Layout) (c : Cond) (b : SStmt)
     (h₁ : SInFragment (.while c b) = true) (h₂ : SInFragment (.ifThen c (.doWhile b c)) = true)
-    (s : Cpu) (m' : SrcSt) (hterm : Sem L (srcOf s) (.while c b) m') :
+    (c₁ : Scoped false (.while c b) = true) (c₂ : Scoped false (.ifThen c (.doWhile b c)) = true)
+    (s : Cpu) (o : Out) (hterm : Sem L (srcOf s) (.while c b) o) :
     ∃ s₁ s₂ n₁ n₂,
-      runG L (gen {} (.while c b)).1 (gen {} (.while c b)).1.length n₁ 0 s = some s₁ ∧
-      runG L (gen {} (.ifThen c (.doWhile b c))).1 (gen {} (.ifThen c (.doWhile b c))).1.length n₂ 0 s = some s₂ ∧
+      runG L (gen none {} (.while c b)).1 (gen none {} (.while c b)).1.length n₁ 0 s = some s₁ ∧
+      runG L (gen none {} (.ifThen c (.doWhile b c))).1 (gen none {} (.ifThen c (.doWhile b c))).1.length n₂ 0 s = some s₂ ∧
       srcOf s₁ = srcOf s₂ ∧ s₁.sp = s₂.sp :=
-  compiled_equiv_struct L _ _ h₁ h₂ s (fun m' => while_dowhile_law L c b (srcOf s) m') m' hterm
+  compiled_equiv_struct L _ _ h₁ h₂ c₁ c₂ s (fun o => while_dowhile_law L c b (srcOf s) o) o hterm
 
 theorem compiled_compare_swap_if (L : Layout) (c : Cond) (t e : SStmt)
     (h₁ : SInFragment (.ifElse c t e) = true) (h₂ : SInFragment (.ifElse (Cond.swap c) t e) = true)
-    (s : Cpu) (m' : SrcSt) (hterm : Sem L (srcOf s) (.ifElse c t e) m') :
+    (c₁ : Scoped false (.ifElse c t e) = true) (c₂ : Scoped false (.ifElse (Cond.swap c) t e) = true)
+    (s : Cpu) (o : Out) (hterm : Sem L (srcOf s) (.ifElse c t e) o) :
     ∃ s₁ s₂ n₁ n₂,
-      runG L (gen {} (.ifElse c t e)).1 (gen {} (.ifElse c t e)).1.length n₁ 0 s = some s₁ ∧
-      runG L (gen {} (.ifElse (Cond.swap c) t e)).1 (gen {} (.ifElse (Cond.swap c) t e)).1.length n₂ 0 s = some s₂ ∧
+      runG L (gen none {} (.ifElse c t e)).1 (gen none {} (.ifElse c t e)).1.length n₁ 0 s = some s₁ ∧
+      runG L (gen none {} (.ifElse (Cond.swap c) t e)).1 (gen none {} (.ifElse (Cond.swap c) t e)).1.length n₂ 0 s = some s₂ ∧
       srcOf s₁ = srcOf s₂ ∧ s₁.sp = s₂.sp :=
-  compiled_equiv_struct L _ _ h₁ h₂ s
-    (fun m' => ⟨fun ⟨f, h⟩ => ⟨f, by rw [← (compare_swap_law L c f (srcOf s)).2.1]; exact h⟩,
-                fun ⟨f, h⟩ => ⟨f, by rw [(compare_swap_law L c f (srcOf s)).2.1]; exact h⟩⟩) m' hterm
+  compiled_equiv_struct L _ _ h₁ h₂ c₁ c₂ s
+    (fun o => ⟨fun ⟨f, h⟩ => ⟨f, by rw [← (compare_swap_law L c f (srcOf s)).2.1]; exact h⟩,
+                fun ⟨f, h⟩ => ⟨f, by rw [(compare_swap_law L c f (srcOf s)).2.1]; exact h⟩⟩) o hterm
 
 theorem compiled_compare_swap_while (L : Layout) (c : Cond) (b : SStmt)
     (h₁ : SInFragment (.while c b) = true) (h₂ : SInFragment (.while (Cond.swap c) b) = true)
-    (s : Cpu) (m' : SrcSt) (hterm : Sem L (srcOf s) (.while c b) m') :
+    (c₁ : Scoped false (.while c b) = true) (c₂ : Scoped false (.while (Cond.swap c) b) = true)
+    (s : Cpu) (o : Out) (hterm : Sem L (srcOf s) (.while c b) o) :
     ∃ s₁ s₂ n₁ n₂,
-      runG L (gen {} (.while c b)).1 (gen {} (.while c b)).1.length n₁ 0 s = some s₁ ∧
-      runG L (gen {} (.while (Cond.swap c) b)).1 (gen {} (.while (Cond.swap c) b)).1.length n₂ 0 s = some s₂ ∧
+      runG L (gen none {} (.while c b)).1 (gen none {} (.while c b)).1.length n₁ 0 s = some s₁ ∧
+      runG L (gen none {} (.while (Cond.swap c) b)).1 (gen none {} (.while (Cond.swap c) b)).1.length n₂ 0 s = some s₂ ∧
       srcOf s₁ = srcOf s₂ ∧ s₁.sp = s₂.sp :=
-  compiled_equiv_struct L _ _ h₁ h₂ s
-    (fun m' => ⟨fun ⟨f, h⟩ => ⟨f, by rw [← (compare_swap_law L c f (srcOf s)).2.2.1]; exact h⟩,
-                fun ⟨f, h⟩ => ⟨f, by rw [(compare_swap_law L c f (srcOf s)).2.2.1]; exact h⟩⟩) m' hterm
+  compiled_equiv_struct L _ _ h₁ h₂ c₁ c₂ s
+    (fun o => ⟨fun ⟨f, h⟩ => ⟨f, by rw [← (compare_swap_law L c f (srcOf s)).2.2.1]; exact h⟩,
+                fun ⟨f, h⟩ => ⟨f, by rw [(compare_swap_law L c f (srcOf s)).2.2.1]; exact h⟩⟩) o hterm
 
 /-! non-vacuity: the spellings are different code, and both are in the fragment -/
 def demoC : Cond := .cmp .lt (.of (.var "a")) (.of (.var "b"))
-example : (gen {} (.ifElse demoC (.flat (.inc (.var "c"))) (.flat (.dec (.var "c"))))).1
-    ≠ (gen {} (.ifElse (Cond.neg demoC) (.flat (.dec (.var "c"))) (.flat (.inc (.var "c"))))).1 := by decide
-example : (gen {} (.while demoC (.flat (.inc (.var "a"))))).1 ≠ (gen {} (.while (Cond.swap demoC) (.flat (.inc (.var "a"))))).1 := by decide
-example : (gen {} (.for (.asg (.var "a") (.of (.const 0))) demoC (.inc (.var "a")) (.flat (.inc (.var "c"))))).1
-    ≠ (gen {} (.seq (.flat (.asg (.var "a") (.of (.const 0)))) (.while demoC (.seq (.flat (.inc (.var "c"))) (.flat (.inc (.var "a"))))))).1 := by decide
+example : (gen none {} (.ifElse demoC (.flat (.inc (.var "c"))) (.flat (.dec (.var "c"))))).1
+    ≠ (gen none {} (.ifElse (Cond.neg demoC) (.flat (.dec (.var "c"))) (.flat (.inc (.var "c"))))).1 := by decide
+example : (gen none {} (.while demoC (.flat (.inc (.var "a"))))).1 ≠ (gen none {} (.while (Cond.swap demoC) (.flat (.inc (.var "a"))))).1 := by decide
+example : (gen none {} (.for (.asg (.var "a") (.of (.const 0))) demoC (.inc (.var "a")) (.flat (.inc (.var "c"))))).1
+    ≠ (gen none {} (.seq (.flat (.asg (.var "a") (.of (.const 0)))) (.while demoC (.seq (.flat (.inc (.var "c"))) (.flat (.inc (.var "a"))))))).1 := by decide
 example : SInFragment (.ifElse (Cond.neg demoC) (.flat (.dec (.var "c"))) (.flat (.inc (.var "c")))) = true := by decide
 example : SInFragment (.while (Cond.swap demoC) (.flat (.inc (.var "a")))) = true := by decide
 
